@@ -33,8 +33,8 @@ ASSUMPTIONS = [
     "the layout of index and data inside the new segment is not prescribed beyond being a well-formed xpak(5) segment that ends the file",
 ]
 BOUNDS = {
-    "quick": "7 carriers x pool of 96 mappings: every carrier -> m1 -> m2 (all 9 216 ordered pairs per carrier, growing, equal and shrinking) and all histories of 3 rewrites over an 8-mapping sub-pool",
-    "thorough": "7 carriers x pool of 226 mappings: all ordered pairs per carrier, and all histories of 3 rewrites over a 20-mapping sub-pool",
+    "quick": "7 carriers x pool of 98 mappings (all ordered key sequences of <=3 of 5 keys): every carrier -> m1 -> m2 (all 9 604 ordered pairs per carrier: growing, equal and shrinking payloads) and all histories of 3 rewrites over an 8-mapping sub-pool; ~73 k rewrites",
+    "thorough": "7 carriers x pool of 259 mappings (sequences of <=5 keys, two value assignments each): all 67 081 ordered pairs per carrier, and all histories of 3 rewrites over an 18-mapping sub-pool; ~512 k rewrites",
 }
 
 TEXT_KEYS = ["A", "BB", "CATEGORY"]
